@@ -29,6 +29,11 @@ def oracle_defaults(R, tier, seed):
         for family in ("flat", "pretwisted", "cambered", "dihedral", "cambered+dihedral"):
             for (nx, ny) in ([(2, 3), (3, 5)] if tier == "quick" else [(2, 3), (3, 5), (4, 7), (2, 9)]):
                 m = gen.rand_mesh(rng, nx, ny, kind, plain=True, offset=False)
+                if family in ("pretwisted", "cambered+dihedral"):
+                    # a panel whose root is NOT on the plane y = 0 (wing attached at the fuselage side, outboard panel, off-centre
+                    # full-span surface): "current span" is the extent of the mesh itself
+                    shift = float(rng.uniform(0.5, 3.0)) * (-1.0 if kind == "left" else 1.0)
+                    m[:, :, 1] += shift
                 y = m[0, :, 1]; b = np.abs(y).max()
                 chordx = (m[:, :, 0] - m[0, :, 0]) / (m[-1, :, 0] - m[0, :, 0])
                 if "pretwisted" in family:
